@@ -81,7 +81,8 @@ class T:
 def leaves():
     out = [T(typ=a) for a in ATOMS] + [T(ref="Pet"), T(lits=["a", 1]), T(lits=[True])]
     # literal values that are equal in Python but distinct Literal members, repeated values, look-alike strings
-    out += [T(lits=[1, True, "on"]), T(lits=[False, 0]), T(lits=[0, 1, False, True]), T(lits=["1", 1]), T(lits=["a", "a", "b"]), T(lits=["None", "a | b"])]
+    out += [T(lits=[1, True, "on"]), T(lits=[False, 0]), T(lits=[0, 1, False, True]), T(lits=["1", 1]), T(lits=["a", "a", "b"]), T(lits=["None", "a | b"]),
+            T(lits=["1,2", "x,  y", "plain"]), T(lits=["a ,b", "[c, d]"])]
     return out
 
 
